@@ -19,7 +19,8 @@ Ifaces == [n \in DOMAIN IfacesRaw |-> Prepare(IfacesRaw[n])]     \* constant: ev
 VARIABLES l, nrej
 vars == <<l, nrej>>
 UnionOver(n, F(_)) == UNION {F(i) : i \in 1..n}
-NSlots == 6       \* three index / type combinations used by the model's programs, plus the default slot, a (void, 1) slot and a type slot
+NSlots == 9       \* three index / type combinations used by the model's programs, the default slot, a (void, 1) slot and a type slot,
+                  \* and three slots whose value type owns heap storage (string, vector, unique_ptr)
 IOF == INSTANCE IOFold       \* reader / writer call sequences run inside a thread are judged as in TrIO
 
 CodecFails(s) ==
